@@ -525,3 +525,16 @@ V("C05", "bounds-del-in-loop", "fire", "C05.R3", "bounds of fixed parameters del
 V("C05", "stitcher-cached-by-index", "fire", "C05.R4", "stitcher remembered per (model, fixed indices) across fits",
   (OC, "from pyhf.tensor.common import _TensorViewer\n", "from pyhf.tensor.common import _TensorViewer\n\n_stitchers = {}\n"),
   (OC, "        stitch_pars = _make_stitch_pars(tv, fixed_values)\n", "        stitch_pars = _stitchers.setdefault((id(pdf), tuple(fixed_idx)), _make_stitch_pars(tv, fixed_values))\n"))
+
+# ------------------------------------------------------------------ VIEW (C01.R9): the index machinery
+TCV, PVV = "src/pyhf/tensor/common.py", "src/pyhf/parameters/paramview.py"
+V("C01", "viewer-no-argsort", "fire", "C01.R9", "stitch gathers with the target indices instead of their argsort",
+  (TCV, "self._sorted_indices = default_backend.tolist(_concat_indices.argsort())", "self._sorted_indices = default_backend.tolist(_concat_indices)"))
+V("C01", "viewer-split-ignores-selection", "fire", "C01.R9", "split ignores the named selection",
+  (TCV, "            if selection is None\n            else [self.name_map[n] for n in selection]", "            if selection is None\n            else self.partition_indices"))
+V("C01", "paramviewer-no-transpose", "fire", "C01.R9", "batched concatenated indices are not transposed to component-major",
+  (PVV, "                tensorlib.einsum('ij->ji', stitched)\n                if len(tensorlib.shape(stitched)) > 1\n                else stitched", "                stitched"))
+V("C01", "viewer-from-slices-off-by-one", "fire", "C01.R9", "ranges built from slices lose their last element",
+  (TCV, "ranges.append(default_backend.astensor(range(sl.start, sl.stop)))", "ranges.append(default_backend.astensor(range(sl.start, sl.stop - 1)))"))
+V("C01", "viewer-parmap-sorted-by-name", "silent", "", "all-parameter viewer partitions listed by name instead of slice start (named access only)",
+  (PVV, "                key=lambda x: x[2],", "                key=lambda x: x[0],"))
